@@ -311,12 +311,7 @@ impl LuaDocLexer<'_> {
                 LuaTokenKind::TkInt
             }
             ch if ch == '"' || ch == '\'' => {
-                reader.bump();
-                reader.eat_while(|c| c != ch);
-                if reader.current_char() == ch {
-                    reader.bump();
-                }
-
+                eat_quoted_string(reader, ch);
                 LuaTokenKind::TkString
             }
             ch if is_name_start(ch) || ch == '`' => {
@@ -636,11 +631,7 @@ impl LuaDocLexer<'_> {
                 LuaTokenKind::TkRightBracket
             }
             ch if ch == '"' || ch == '\'' => {
-                reader.bump();
-                reader.eat_while(|c| c != ch);
-                if reader.current_char() == ch {
-                    reader.bump();
-                }
+                eat_quoted_string(reader, ch);
                 LuaTokenKind::TkString
             }
             '.' if reader.next_char().is_ascii_digit() => self.lex_number(),
@@ -859,6 +850,28 @@ fn to_token_or_name(text: &str) -> LuaTokenKind {
 
 fn is_doc_whitespace(ch: char) -> bool {
     ch == ' ' || ch == '\t' || ch == '\r' || ch == '\n'
+}
+
+
+/// Consumes a quoted string starting at the opening quote. A backslash escapes the next
+/// character, as in Lua strings, so `"a\"b"` is one string.
+fn eat_quoted_string(reader: &mut Reader, quote: char) {
+    reader.bump();
+    while !reader.is_eof() {
+        let c = reader.current_char();
+        if c == '\\' {
+            reader.bump();
+            if !reader.is_eof() {
+                reader.bump();
+            }
+            continue;
+        }
+        if c == quote {
+            reader.bump();
+            break;
+        }
+        reader.bump();
+    }
 }
 
 fn read_doc_name<'a>(reader: &'a mut Reader) -> (&'a str, bool /* str tpl */) {
